@@ -86,6 +86,10 @@ type BaseStore struct {
 	cancel    context.CancelFunc
 	closeFunc func()
 
+	// muStatus makes each read-compute-write of the replication status atomic: the store's main loop
+	// (replication events) and writers update it concurrently, and a stale write would lower it again
+	muStatus sync.Mutex
+
 	// Deprecated: if possible don't use this, use EventBus() directly instead
 	events.EventEmitter
 }
@@ -939,6 +943,9 @@ func (b *BaseStore) AddOperation(ctx context.Context, op operation.Operation, on
 }
 
 func (b *BaseStore) recalculateReplicationProgress() {
+	b.muStatus.Lock()
+	defer b.muStatus.Unlock()
+
 	max := b.ReplicationStatus().GetMax()
 	if progress := b.ReplicationStatus().GetProgress() + 1; progress < max {
 		max = progress
@@ -952,6 +959,9 @@ func (b *BaseStore) recalculateReplicationProgress() {
 }
 
 func (b *BaseStore) recalculateReplicationMax(max int) {
+	b.muStatus.Lock()
+	defer b.muStatus.Unlock()
+
 	if opLogLen := b.OpLog().Len(); opLogLen > max {
 		max = opLogLen
 
